@@ -8,7 +8,8 @@ VERIF = "/verif"
 GROUPS = [["C01", "C02", "C03", "C09"], ["C04", "C05", "C06", "C07"], ["C11", "C12", "C13"], ["C16", "C17", "C18", "C19"], ["C15", "C16"],
           ["C10", "C01", "C02", "C03", "C05"], ["C08", "C09"], ["C14"], ["C20"]]
 # (change, check): why an alarm here is right
-EXPECTED = {
+EXPECTED = {  # keyed by the name of the kept change
+    ("C18-2", "C17"): "the change shifts the whole buffer once it is full: hidden scrollback lines move, C17 says they stay (C17's letter)",
     ("C11", "C12"): "the change copies strings/names/buffers out of the table: they no longer lie inside the table's bytes (C12's letter)",
     ("C18", "C17"): "the change turns the terminal buffer into a ring: scrollback keeps the newest lines instead of staying untouched (C17's letter)",
 }
@@ -31,7 +32,7 @@ for name in names:
         p = subprocess.run(["timeout", "1500", os.path.join(VERIF, "vcheck"), c, "--tier", "quick", "--mutant", os.path.join(d, "patch.diff")], cwd=VERIF, stdout=subprocess.PIPE, stderr=subprocess.STDOUT)
         out = p.stdout.decode("utf-8", "replace")
         classes = sorted(set(re.findall(r"class=(\S+)", out)))
-        exp = EXPECTED.get((pid, c))
+        exp = EXPECTED.get((name, c))
         ok = (p.returncode == 0) if not exp else (p.returncode == 1)
         rec["runs"][c] = dict(exit=p.returncode, classes=classes, expected=("alarm: " + exp) if exp else "silent", as_expected=ok)
         print("%-7s -> %s exit=%d %s %s" % (name, c, p.returncode, ",".join(classes), "" if ok else "<<< UNEXPECTED"))
